@@ -206,14 +206,16 @@ def run_case(ctx, name, params):
                     bad.append(("out_of_box", list(vec)))
                     return
         hostile = r.choice([0.0, 0.02, 0.1])
-        p, a, err = insitu.run_one(setup, hostile=hostile, on_call=on_call)
+        p, a, err = insitu.run_one(setup, hostile=hostile, on_call=on_call, timeout=10)
         ctx.count("runs")
         wit = lambda: {"algo": algo, "N": setup["N"], "G": setup["G"], "bounds": bxs, "hostile": hostile, "seed": setup["seed"],
                        "first_bad": bad[:2]}
         if bad:
             ctx.violation("run/%s/%s" % (algo, bad[0][0]), "a design evaluated during a %s run lies outside the box" % algo, wit())
             return
-        if err is not None:
+        if isinstance(err, insitu.RunTimeout):
+            ctx.count("runs_stopped_by_wall_clock_guard")
+        elif err is not None:
             ctx.count("runs_aborted")
             ctx.sample({"algo": algo, "aborted_with": repr(err)}, "aborted_run", 2)
         else:
